@@ -291,6 +291,12 @@ impl SubqueryExecutor {
             )));
         }
 
+        // `SELECT (SELECT *)`: a subquery with no FROM expands `*` to nothing
+        if batch.num_columns() == 0 {
+            return Err(QueryError::Plan(
+                "scalar subquery must return exactly one column, got none".into(),
+            ));
+        }
         let column = batch.column(0);
         let scalar = array_ref_to_scalar(column, 0)?;
 
@@ -335,6 +341,11 @@ impl SubqueryExecutor {
         }
 
         // Concatenate all batches into a single array
+        if batches[0].num_columns() == 0 {
+            return Err(QueryError::Plan(
+                "IN subquery must return exactly one column, got none".into(),
+            ));
+        }
         let result = if batches.len() == 1 {
             batches[0].column(0).clone()
         } else {
